@@ -28,7 +28,11 @@ RULE = ('(audited against harness/GENERATOR_CHECKLIST.md) ranked profiles over 1
         'implementation is additionally passed through the verified PSC checker (psc_check), as are synthetic outcomes that '
         'violate PSC; thorough tier: exhaustive 3-candidate profiles of 3 ballot types (strict, and with shared ranks), weights 1..3. '
         'Non-trivial = at least two candidates and a result that is not an error; distinct by canonical request.')
-NOT_VERIFIED = ['random module: Hare draws are recorded and replayed to the model (DrawOK contract checked on both sides)',
+NOT_VERIFIED = ['Decimal (and float) vote counts: the STV classes raise TypeError in every configuration (Fraction(Decimal, ...) in the '
+                'quota functions / Decimal // float without a quota); generated as a pinned refusal, whatever is returned instead is compared',
+                'a retainer other than Plurality(), a non-negative eliminate_step once nobody is left (IndexError instead of '
+                'VotingSystemError): outside the quantifier, accepted as equivalent outcomes',
+                'random module: Hare draws are recorded and replayed to the model (DrawOK contract checked on both sides)',
                 'iteration order of frozensets (shared ranks) as observed in the harness process',
                 'PSC is proved for the selector form (max_seats = 1); in addition every model and implementation outcome is run through '
                 'the verified checker pscCheck']
@@ -185,7 +189,8 @@ def impl(case):
     if n == 1 and any(t > V / 2 for t in _first_pref_totals(case['votes']).values()):
         _tag(case, 'majority_winner')
     return {'result': result, 'quota': qstr(q), 'psc': psc, '_msg': msg, '_bad_draws': bad,
-            '_quotas': sorted({json.dumps(rec.get('quota')) for rec in counts if 'err' not in rec and not rec['shortcut']})}
+            '_quotas': sorted({json.dumps(rec.get('quota')) for rec in counts if 'err' not in rec and not rec['shortcut']}
+                              | {json.dumps(rec.get('quota_seen')) for rec in counts if rec.get('quota_computed')})}
 
 
 def oracle(case, obs):
@@ -193,7 +198,7 @@ def oracle(case, obs):
         return []
     out = []
     if obs['_bad_draws']:
-        out.append(('draw_contract', obs['_bad_draws'][0]))
+        out.append(('float_in_exact_path' if obs['_bad_draws'][0].startswith('float in') else 'draw_contract', obs['_bad_draws'][0]))
     res = obs['result']
     cands = profile_cands(case['votes'])
     n = case['n']
